@@ -86,7 +86,10 @@ impl Gen {
             5 => Expr::Lit(self.scalar()),
             6 => Expr::Var(self.name(), vec![lit_i(self.rng.range(-2, 3))]),
             7 => Expr::Var(self.name(), vec![lit_s(*self.rng.pick(&["size", "first", "last", "a", "b"]))]),
-            8 => path("forloop", &[*self.rng.pick(&["index", "index0", "first", "last", "length", "rindex"])]),
+            8 => match self.rng.below(4) {
+                0 => path("forloop", &["parentloop", *self.rng.pick(&["index", "length", "first"])]),
+                _ => path("forloop", &[*self.rng.pick(&["index", "index0", "first", "last", "length", "rindex"])]),
+            },
             _ => var("arr"),
         }
     }
@@ -110,12 +113,29 @@ impl Gen {
 
     pub fn cond(&mut self) -> Cond {
         if self.guarded {
+            // existence probes never fail: also of the loop object and of the enclosing loop's
+            if self.rng.chance(1, 6) {
+                return Cond::Exist(match self.rng.below(3) {
+                    0 => var("forloop"),
+                    1 => path("forloop", &["parentloop"]),
+                    _ => path("forloop", &["parentloop", "parentloop"]),
+                });
+            }
             return if self.rng.chance(1, 2) { Cond::Exist(var(&self.name())) } else { Cond::Bin(Expr::Lit(self.scalar()), *self.rng.pick(&[CmpOp::Eq, CmpOp::Ne]), Expr::Lit(self.scalar())) };
         }
         match self.rng.below(5) {
             0 | 1 => Cond::Exist(self.expr()),
             2 => Cond::Bin(self.e(), *self.rng.pick(&[CmpOp::Eq, CmpOp::Ne, CmpOp::Lt, CmpOp::Ge]), self.e()),
-            3 => Cond::Flat(vec![FlatTok::Atom(Cond::Exist(self.expr())), FlatTok::Or, FlatTok::Atom(Cond::Exist(self.expr())), FlatTok::And, FlatTok::Atom(Cond::Exist(self.expr()))]),
+            3 => {
+                // a flat chain of 2..4 atoms joined by any mix of `and` / `or`
+                let n = 2 + self.rng.below(3);
+                let mut toks = vec![FlatTok::Atom(Cond::Exist(self.expr()))];
+                for _ in 1..n {
+                    toks.push(if self.rng.chance(1, 2) { FlatTok::And } else { FlatTok::Or });
+                    toks.push(FlatTok::Atom(Cond::Exist(self.expr())));
+                }
+                Cond::Flat(toks)
+            }
             _ => Cond::Bin(path("forloop", &["index0"]), CmpOp::Eq, lit_i(self.rng.range(0, 2))),
         }
     }
